@@ -207,6 +207,7 @@ func c16FamilyCase(c *explore.Ctx, s *explore.SubStats, f *gen.Family, n, limit 
 }
 
 func runC16(c *explore.Ctx) {
+	defer histSub(c) // limited and unlimited entry points in every order: each call equals the call on its own
 	seqs := func(name string, alpha []gen.Tok, sdl bool, n int) {
 		s := c.Sub(name, fmt.Sprintf("every token sequence of ≤ %d tokens over %d token classes (comments and an invalid token included) × every limit −2 … N+2", n, len(alpha)),
 			"limited parse succeeds ⇔ unlimited succeeds ∧ (L = 0 ∨ N ≤ L), with N counted by the reference lexer (comments included); identical tree on success; monotone in L", "sequences the unlimited parser accepts")
